@@ -11,9 +11,10 @@ open RdfModel RdfModel.Ttl RdfModel.TtlEnc RdfModel.C02 RdfModel.TtlDoc
 
 /-- the decoder's environment agrees with the encoder's: same base, every mapping of the manager is
     what the decoder's table answers for its label -/
-structure EnvOK (env : Env) (base : Option (List Nat)) (pm : Prefix.PM) : Prop where
+structure EnvOK (env : Env) (base : Option (List Nat)) (pm : Prefix.PM) (D : List Nat → Prop) : Prop where
   base : env.base = base
-  pfx : ∀ m ∈ pm.ordered, lookupPfx m.pfx env.prefixes = some m.expanded
+  /-- `D`: the labels the document declares (all of the table, or — buffered header — the used ones) -/
+  pfx : ∀ m ∈ pm.ordered, D m.pfx → lookupPfx m.pfx env.prefixes = some m.expanded
 
 theorem scalars_of_iriOK {v : List Nat} (h : iriOK v = true) : Scalars v := by
   intro c hc
@@ -199,7 +200,8 @@ theorem labelSafe_parts {isSpace : Nat → Bool} {p : List Nat} (h : labelSafe i
 theorem decode_writeIRI {β : Type} (hT : DocTablesOK T) (hC : CfgOK C T) (c : Ctx β) (hcT : c.T = T)
     (base : Option (List Nat)) (hcb : c.base = base.map Prefix.newBaseIRI) (hbase : ∀ b, base = some b → baseOK b)
     (hlab : ∀ m ∈ c.pm.ordered, labelSafe C.isSpace T m.pfx = true)
-    (env : Env) (henv : EnvOK env base c.pm) (v : List Nat) (hv : iriTermOK c base v) (w : Written)
+    (env : Env) (D : List Nat → Prop) (henv : EnvOK env base c.pm D) (v : List Nat) (hv : iriTermOK c base v)
+    (hD : ∀ l ∈ usedOfIRI c.pm v, D l) (w : Written)
     (hw : writeIRIForm c v = .ok w) (e : NQ.End) (rest : List Nat) (hstop : LocalStop T e rest) :
     decodeWritten C T e env w rest = .ok v rest := by
   have hsv : Scalars v := scalars_of_iriOK hv.1
@@ -232,7 +234,8 @@ theorem decode_writeIRI {β : Type} (hT : DocTablesOK T) (hC : CfgOK C T) (c : C
       have hok : PNLocalOK T pr.reference = true := localOK_of_format T hT true _ _ hfmt hrawl
       have hex : env.expand pr.pfx pr.reference = some v := by
         unfold Env.expand
-        rw [← hmp, henv.pfx m hm]
+        have hDm : D m.pfx := hD m.pfx (by simp [usedOfIRI, hcp, hmp])
+        rw [← hmp, henv.pfx m hm hDm]
         simp [hmv]
       exact iriPName_text hT hC e env pr.pfx pr.reference out' v rest hpo hps hsl hok hfmt hstop hex
   | none =>
